@@ -23,10 +23,11 @@ TABLE = {
         "assumptions": ["pandas / polars: df[cols], df.loc[:, cols], select(cols), rename(columns=m) are functions of their arguments (library contracts assumed)"],
     },
     "C09": {
-        "mods": ["contracts.glue"], "keys": ["PandasModel._select_rows_step"],
-        "explanation": ("hybrid: PROVED (pyvc) -- Pandas _select_rows_step returns clean_copy(rows selected by the node's expression) i.e. a frame with a fresh default index (a gapped index after a "
+        "mods": ["contracts.glue"], "keys": ["PandasModel._select_rows_step", "SQLModel.project_to_near_sql"],
+        "explanation": ("hybrid: PROVED (pyvc) -- SQLModel.project_to_near_sql (the GROUP BY text of every SQL dialect): the GROUP BY clause names ALL group keys of the node, quoted and in order, "
+                        "independently of the columns later steps still use, every group key is a selected term, and there is no GROUP BY exactly when the node has no group keys; Pandas _select_rows_step returns clean_copy(rows selected by the node's expression) i.e. a frame with a fresh default index (a gapped index after a "
                         "filter is what misaligns a following windowed extend); BOUNDED -- row counts of project / windowed extend against distinct key tuples of the materialised input on Pandas, "
-                        "Polars, SQLite (the grouping code itself -- groupby / over / GROUP BY text -- is not under contract)"),
+                        "Polars, SQLite (the Pandas / Polars grouping code -- groupby / over -- and the windowed-extend SQL are not under contract)"),
         "assumptions": ["pandas: reset_index(drop=True, inplace=False) gives a default index; expr.act_on is a function of (expression, frame)"],
     },
     "C16": {
@@ -68,7 +69,9 @@ TABLE = {
     },
     "C19": {
         "mods": ["contracts.glue", "contracts.c06_builders"], "keys": ["PandasModel.clean_copy", "PandasModel._table_step"] + RL,
-        "explanation": ("hybrid: PROVED (pyvc) -- every returning path of PandasModelBase._table_step (the only place a caller's frame enters the Pandas executor) returns "
+        "groups_extra": [(["contracts.c19_recordmap"], ["RecordMap.transform"])],
+        "explanation": ("hybrid: PROVED (pyvc) -- cdata.RecordMap.transform (behind `frame >> record_map`, record_map(frame) and convert_records) never hands the caller's frame to anything that may "
+                        "modify it (drop_indices, the record conversion routines): it works on clean_copy(X) and returns a frame the caller did not supply, also on the rejecting paths; every returning path of PandasModelBase._table_step (the only place a caller's frame enters the Pandas executor) returns "
                         "clean_copy(df.loc[:, declared columns]) and clean_copy returns reset_index(drop=True, inplace=False), i.e. a new frame under the assumed pandas contract; composition (replace_leaves of 10 node classes) never modifies the node being rebuilt, so a pipeline evaluates the same after it was used in a composition; "
                         "BOUNDED -- deep snapshots of caller frames around eval/transform/ex/>> on Pandas and Polars, repeatability"),
         "assumptions": ["pandas: reset_index(drop=True, inplace=False) returns a new frame; df.loc[:, cols] is a function of (df, cols)",
